@@ -416,8 +416,12 @@ def runLoad (r : Report) (s : Section) (l : Line) (fs : Fields) (j : J) (j2 : Op
       r := r.violation s.idx l.idx s!"format-dependent class=format LJ=[{oLJ}] LY=[{oLY}] LT=[{oLT}] doc=[{printTree j}]"
   else
     r := r.addCover (if noNull j then "excluded-noncanonical-number" else "excluded-null")
-    -- JSON and YAML still agree on documents without null
-    if noNull j ∧ oLJ ≠ oLY then r := r.addCover "json-yaml-differ-out-of-scope"
+    -- integers in (MaxInt64, MaxUint64] cannot be written in TOML, but JSON and YAML must still agree on them
+    if inScopeJY j ∧ ¬ coll then
+      r := r.addCover "format-independence-json-yaml-checked"
+      if oLJ ≠ oLY then
+        r := r.violation s.idx l.idx s!"format-dependent class=format-json-yaml LJ=[{oLJ}] LY=[{oLY}] doc=[{printTree j}]"
+    else if noNull j ∧ oLJ ≠ oLY then r := r.addCover "json-yaml-differ-out-of-scope"
   match j2 with
   | some j2 =>
     if recasedTy (derefAll (.struct fs)) j j2 then
@@ -476,6 +480,10 @@ def runMunm (r : Report) (s : Section) (l : Line) (fs : Fields) (bits : Nat) (j 
       r := r.violation s.idx l.idx s!"format-dependent class=mapping-format opts={bits} MJB=[{g "MJB"}] MYB=[{g "MYB"}] MTB=[{t}] doc=[{printTree j}]"
   else
     r := r.addCover (if noNull j then "mapping-excluded-noncanonical-number" else "mapping-excluded-null")
+    if inScopeJY j then
+      r := r.addCover "mapping-format-independence-json-yaml-checked"
+      if g "MJB" ≠ g "MYB" then
+        r := r.violation s.idx l.idx s!"format-dependent class=mapping-format-json-yaml opts={bits} MJB=[{g "MJB"}] MYB=[{g "MYB"}] doc=[{printTree j}]"
   if bits = 0 then
     if hasEmbeddedDeep (.struct fs) ∨ tyHasStringOpt (.struct fs) then r := r.addCover "std-embedded-not-modelled"
     else r := checkTokM im r s l "S" (printRes (stdDecode fs j))
